@@ -1066,7 +1066,7 @@ func (t *objectType) createAttributesInfo() *attributesInfo {
 		for _, key := range t.serialization {
 			av, _ := atMap.Get(key)
 			attr := av.(px.Attribute)
-			if attr.HasValue() {
+			if !attr.HasValue() {
 				nonOptSize++
 			}
 			attrs = append(attrs, attr)
